@@ -25,6 +25,149 @@ pub fn header(ver: i64) -> Vec<u8> {
     h
 }
 
+pub const HDR_NAME_PLAIN: &str = "dm1";
+/// decoded value of the map name written with JSON escapes (variation "esc")
+pub const HDR_NAME_ESC: &str = "d\tm\"1\\A";
+pub const HDR_NAME_ESC_JSON: &str = "d\\tm\\\"1\\\\\\u0041";
+
+/// Renders a header descriptor (TeehistCore.tla, "the header") into bytes.  The descriptor says
+/// *what* is in the header or what is wrong with it; the text is made here.
+pub fn render_header(hd: &Value) -> Vec<u8> {
+    let mut h: Vec<u8> = hd["magic"]
+        .as_array()
+        .map(|a| a.iter().map(|x| x.as_u64().unwrap_or(0) as u8).collect())
+        .unwrap_or_else(|| MAGIC.to_vec());
+    let ver = hd["ver"].as_i64().unwrap_or(2);
+    let mal = hd["mal"].as_str().unwrap_or("");
+    let var = hd["var"].as_str().unwrap_or("plain");
+    let num = hd["num"].as_str().unwrap_or("mid");
+    let pad = hd["pad"].as_u64().unwrap_or(0) as usize;
+    let vtext = match hd["vtext"].as_str().unwrap_or("plain") {
+        "plus" => format!("+{}", ver),
+        "zero" => format!("0{}", ver),
+        "space" => format!(" {}", ver),
+        "empty" => String::new(),
+        "word" => "two".to_string(),
+        "big" => "2147483648".to_string(),
+        _ => format!("{}", ver),
+    };
+    let q = |s: &str| format!("\"{}\"", s);
+    let (port, size, crc) = match num {
+        "min" => ("0", "0", "0"),
+        "max" => ("65535", "4294967295", "ffffffff"),
+        _ => ("8303", "5805", "f2159e21"),
+    };
+    let mut members: Vec<(String, String)> = Vec::new();
+    members.push(("version".into(), q(&vtext)));
+    if mal == "dup" {
+        members.push(("version".into(), q("1")));
+    }
+    members.push(("game_uuid".into(), q(if mal == "game_uuid" { "nope" } else { "00000000-0000-0000-0000-000000000000" })));
+    members.push((
+        "start_time".into(),
+        q(if mal == "start_time" {
+            "yesterday"
+        } else if ver == 1 {
+            "2017-09-24 11:22:33 +0200"
+        } else {
+            "2017-09-24T11:22:33+02:00"
+        }),
+    ));
+    members.push(("server_port".into(), if mal == "type" { port.to_string() } else { q(if mal == "server_port" { "65536" } else { port }) }));
+    members.push(("map_name".into(), q(if var == "esc" { HDR_NAME_ESC_JSON } else if mal == "utf8" { "dm\u{1}1" } else { HDR_NAME_PLAIN })));
+    members.push(("map_size".into(), q(if mal == "map_size" { "-1" } else { size })));
+    if var == "sha" || mal == "sha" {
+        let good = "0123456789abcdef0123456789abcdef0123456789abcdef0123456789abcdef";
+        members.push(("map_sha256".into(), q(if mal == "sha" { "zz" } else { good })));
+    }
+    if mal != "missing" {
+        members.push(("map_crc".into(), q(if mal == "map_crc" { "100000000" } else { crc })));
+    }
+    if var == "extra" {
+        members.push(("foo".into(), "{\"bar\":[1,2,{\"x\":null}],\"baz\":true}".into()));
+    }
+    let mut cfg: Vec<String> = Vec::new();
+    match var {
+        "nocfg" => {}
+        "manycfg" => {
+            for i in 0..40 {
+                cfg.push(format!("\"k{:02}\":\"v{}\"", i, i));
+            }
+        }
+        _ => cfg.push(if mal == "cfgtype" { "\"sv_name\":5".to_string() } else { "\"sv_name\":\"verif\"".to_string() }),
+    }
+    if pad > 0 {
+        cfg.push(format!("\"pad\":\"{}\"", "x".repeat(pad)));
+    }
+    let sep = if var == "ws" { " ,\n\t " } else { "," };
+    let colon = if var == "ws" { " : " } else { ":" };
+    members.push(("config".into(), format!("{{{}}}", cfg.join(sep))));
+    if var == "extra" {
+        members.push(("tail".into(), "1.5e3".into()));
+    }
+    let mut j = String::new();
+    if var == "ws" {
+        j.push_str(" \n");
+    }
+    j.push('{');
+    j.push_str(&members.iter().map(|(k, v)| format!("\"{}\"{}{}", k, colon, v)).collect::<Vec<_>>().join(sep));
+    if mal != "syntax" {
+        j.push('}');
+    }
+    if var == "ws" {
+        j.push_str("  \n ");
+    }
+    if mal == "trailing" {
+        j.push('x');
+    }
+    if mal == "notobj" {
+        j = "7".to_string();
+    }
+    let mut jb = j.into_bytes();
+    if mal == "utf8" {
+        // the placeholder U+0001 becomes a byte that is not UTF-8
+        for b in jb.iter_mut() {
+            if *b == 1 {
+                *b = 0xff;
+            }
+        }
+    }
+    h.extend_from_slice(&jb);
+    if hd["nul"].as_bool().unwrap_or(true) {
+        h.push(0);
+    }
+    h
+}
+
+/// Projects the header the library returned into the spec's vocabulary (TeehistCore!HdrEvent).
+pub fn project_header(h: &libtw2_teehistorian::format::Header, hd: &Value) -> Value {
+    let var = hd["var"].as_str().unwrap_or("plain");
+    let pad = hd["pad"].as_u64().unwrap_or(0) as usize;
+    let want_name = if var == "esc" { HDR_NAME_ESC } else { HDR_NAME_PLAIN };
+    let nil_uuid = h.game_uuid.as_bytes().iter().all(|b| *b == 0);
+    let num = match (h.server_port, h.map_size, h.map_crc) {
+        (8303, 5805, 0xf2159e21) if nil_uuid => "mid",
+        (0, 0, 0) if nil_uuid => "min",
+        (65535, 0xffff_ffff, 0xffff_ffff) if nil_uuid => "max",
+        _ => "other",
+    };
+    let mut cfg_ok = true;
+    for (k, v) in h.config.iter() {
+        let ok = match &k[..] {
+            "sv_name" => v == "verif",
+            "pad" => v.len() == pad && v.bytes().all(|b| b == b'x'),
+            k if k.len() == 3 && k.starts_with('k') => k[1..].parse::<u32>().map(|i| *v == format!("v{}", i)).unwrap_or(false),
+            _ => false,
+        };
+        cfg_ok &= ok;
+    }
+    let sha_ok = h.map_sha256.map(|s| format!("{}", s) == "0123456789abcdef0123456789abcdef0123456789abcdef0123456789abcdef");
+    json!({"e": "hdr", "ver": h.version, "time": h.timestamp.timestamp(), "num": num,
+           "name": len_if(h.map_name == want_name, h.map_name.len()),
+           "ncfg": if cfg_ok { h.config.len() as i64 } else { -1 },
+           "sha": sha_ok.unwrap_or(false)})
+}
+
 /// doc/int.md
 pub fn put_int(out: &mut Vec<u8>, v: i32) {
     let sign: u8 = if v < 0 { 1 } else { 0 };
@@ -214,7 +357,11 @@ pub struct Encoded {
 /// Encodes a stream descriptor {ver, items, cut, cl}.
 pub fn encode_stream(s: &Value) -> Encoded {
     let ver = s["ver"].as_i64().unwrap_or(2);
-    let mut bytes = header(if ver == 0 { 2 } else { ver });
+    let mut bytes = if s.get("hd").map(|h| h.is_object()).unwrap_or(false) {
+        render_header(&s["hd"])
+    } else {
+        header(if ver == 0 { 2 } else { ver })
+    };
     let hlen = bytes.len();
     let items = s["items"].as_array().cloned().unwrap_or_default();
     let cut = s["cut"].as_i64().unwrap_or(0);
@@ -338,7 +485,20 @@ pub fn project(it: &Item, idx: usize) -> Value {
 pub fn error_class(e: &format::Error) -> String {
     use format::Error::*;
     let s = match e {
-        Header(_) => "header",
+        Header(h) => {
+            use format::HeaderError::*;
+            match h {
+                WrongMagic => "header:wrong_magic",
+                MalformedJson => "header:malformed_json",
+                MalformedHeader => "header:malformed_header",
+                MalformedVersion => "header:malformed_version",
+                MalformedGameUuid => "header:malformed_game_uuid",
+                MalformedStartTime => "header:malformed_start_time",
+                MalformedServerPort => "header:malformed_server_port",
+                MalformedMapSize => "header:malformed_map_size",
+                MalformedMapCrc => "header:malformed_map_crc",
+            }
+        }
         Item(item::Error::UnknownType(_)) => "unknown_type",
         Item(item::Error::NegativeDt) => "negative_dt",
         Item(item::Error::NegativeNumArgs) => "negative_num_args",
@@ -417,18 +577,82 @@ impl<'a> Callback for Cb<'a> {
     }
 }
 
+/// What the accessors of the reader report (`cids`, `player_pos`, `input`), kept between two
+/// calls so that only the *difference* is logged.
+pub struct Snap {
+    pos: Vec<Option<(i32, i32)>>,
+    inp: Vec<Option<[i32; 10]>>,
+    /// client ids below this are queried in any case (the largest id the stream names, capped)
+    floor: usize,
+}
+
+pub const QUERY_CAP: usize = 4097;
+
+impl Snap {
+    pub fn new(items: &[Value]) -> Snap {
+        let floor = items
+            .iter()
+            .flat_map(|it| vec![it.get("c").and_then(|v| v.as_i64()).unwrap_or(-1), it.get("b").and_then(|v| v.as_i64()).unwrap_or(-1)])
+            .filter(|c| *c >= 0 && (*c as usize) < QUERY_CAP)
+            .max()
+            .map(|c| c as usize + 1)
+            .unwrap_or(0);
+        Snap { pos: Vec::new(), inp: Vec::new(), floor }
+    }
+    /// Queries the reader and returns (dp, di, mc): changed positions / inputs since the last
+    /// query, sorted by client id, and `cids().end - 1` (-2: the accessor panicked).
+    pub fn delta(&mut self, r: &Reader) -> (Value, Value, i64) {
+        let mc: i64 = match vh_common::catch(|| r.cids().end as i64 - 1) {
+            Ok(x) => x,
+            Err(_) => -2,
+        };
+        let n = (if mc >= 0 { (mc as usize + 1).min(QUERY_CAP) } else { 0 }).max(self.floor).max(self.pos.len());
+        self.pos.resize(n, None);
+        self.inp.resize(n, None);
+        let mut dp = Vec::new();
+        let mut di = Vec::new();
+        for c in 0..n {
+            let p = r.player_pos(c as i32).map(|p| (p.x, p.y));
+            if p != self.pos[c] {
+                dp.push(match p {
+                    Some((x, y)) => json!({"c": c, "v": [x, y]}),
+                    None => json!({"c": c, "v": []}),
+                });
+                self.pos[c] = p;
+            }
+            let i = r.input(c as i32);
+            if i != self.inp[c] {
+                di.push(match i {
+                    Some(v) => json!({"c": c, "v": v.to_vec()}),
+                    None => json!({"c": c, "v": []}),
+                });
+                self.inp[c] = i;
+            }
+        }
+        (Value::Array(dp), Value::Array(di), mc)
+    }
+}
+
 pub struct Run {
     /// events in trace order: {"t":"C",..} / {"t":"O",..}, and finally {"t":"E",..}
     pub events: Vec<Value>,
     /// only the outputs (without the header event)
     pub outs: Vec<Value>,
     pub end: String,
+    /// false: the accessors reported a change when FINISH was read
+    pub quiet_end: bool,
 }
 
 /// Runs the real reader over `bytes` with the fragmentation `frag`.  `items` (the abstract
 /// stream, may be empty for unknown streams) is used only to find the index of the stream item
 /// an "other" record stems from (n-th "other" output <- n-th "other" item).
 pub fn run_reader(bytes: &[u8], frag: Frag, items: &[Value], max_outputs: usize, ms: u64) -> Run {
+    run_reader_hd(bytes, frag, items, None, max_outputs, ms)
+}
+
+/// `hd`: the header descriptor the bytes were rendered from (then the returned header is projected
+/// into the spec's vocabulary and is part of the outputs).
+pub fn run_reader_hd(bytes: &[u8], frag: Frag, items: &[Value], hd: Option<&Value>, max_outputs: usize, ms: u64) -> Run {
     let o_idx: Vec<usize> = items
         .iter()
         .enumerate()
@@ -439,11 +663,19 @@ pub fn run_reader(bytes: &[u8], frag: Frag, items: &[Value], max_outputs: usize,
     let mut outs = Vec::new();
     let mut cb = Cb { data: bytes, pos: 0, frag, next: 0, log: Vec::new(), carry: 0 };
     let mut flushed = 0usize;
+    let mut snap = Snap::new(items);
+    let mut fin_delta: Option<(Value, Value)> = None;
     let res = guarded(ms, || {
         let mut buffer = Buffer::new();
         let mut end: Option<String> = None;
+        let mut hdr_ev = json!({"e": "hdr"});
         let mut reader = match Reader::new(&mut cb, &mut buffer) {
-            Ok((_h, r)) => Some(r),
+            Ok((h, r)) => {
+                if let Some(hd) = hd {
+                    hdr_ev = project_header(&h, hd);
+                }
+                Some(r)
+            }
             Err(Error::Teehistorian(e)) => {
                 end = Some(error_class(&e));
                 None
@@ -458,7 +690,10 @@ pub fn run_reader(bytes: &[u8], frag: Frag, items: &[Value], max_outputs: usize,
         }
         flushed = cb.log.len();
         if reader.is_some() {
-            events.push(json!({"t": "O", "ev": {"e": "hdr"}}));
+            if hd.is_some() {
+                outs.push(hdr_ev.clone());
+            }
+            events.push(json!({"t": "O", "ev": hdr_ev}));
         }
         let mut n_o = 0usize;
         while let Some(r) = reader.as_mut() {
@@ -484,7 +719,12 @@ pub fn run_reader(bytes: &[u8], frag: Frag, items: &[Value], max_outputs: usize,
                     } else {
                         0
                     };
-                    let v = project(&item, idx);
+                    let mut v = project(&item, idx);
+                    // the item borrows the buffer, not the reader: the accessors can be asked now
+                    let (dp, di, mc) = snap.delta(r);
+                    v["dp"] = dp;
+                    v["di"] = di;
+                    v["mc"] = json!(mc);
                     events.push(json!({"t": "O", "ev": v}));
                     outs.push(v);
                     if outs.len() > max_outputs {
@@ -493,6 +733,9 @@ pub fn run_reader(bytes: &[u8], frag: Frag, items: &[Value], max_outputs: usize,
                     }
                 }
                 Ok(None) => {
+                    // FINISH leaves the tracked positions / inputs alone
+                    let (dp, di, _mc) = snap.delta(r);
+                    fin_delta = Some((dp, di));
                     end = Some("fin".into());
                     break;
                 }
@@ -517,8 +760,15 @@ pub fn run_reader(bytes: &[u8], frag: Frag, items: &[Value], max_outputs: usize,
             "panic".to_string()
         }
     };
-    events.push(json!({"t": "E", "end": end}));
-    Run { events, outs, end }
+    let mut e = json!({"t": "E", "end": end});
+    let mut quiet_end = true;
+    if let Some((dp, di)) = fin_delta {
+        quiet_end = dp.as_array().map(|a| a.is_empty()).unwrap_or(true) && di.as_array().map(|a| a.is_empty()).unwrap_or(true);
+        e["dp"] = dp;
+        e["di"] = di;
+    }
+    events.push(e);
+    Run { events, outs, end, quiet_end }
 }
 
 /// Largest client id a PLAYER_NEW / INPUT_NEW of `bytes` (after the header) would make the
